@@ -683,7 +683,13 @@ class FormalContext:
         else:
             row_slice, column_slice = item
 
-        data = self.data[row_slice, column_slice]
+        if isinstance(row_slice, Integral) != isinstance(column_slice, Integral):
+            # a single object (or attribute) selected by its index gives the context with this one row (column),
+            # the same way ``slice_list`` keeps its single name
+            data = self.data[[row_slice] if isinstance(row_slice, Integral) else row_slice,
+                             [column_slice] if isinstance(column_slice, Integral) else column_slice]
+        else:
+            data = self.data[row_slice, column_slice]
 
         if not (isinstance(row_slice, Integral) and isinstance(column_slice, Integral)):
             object_names = slice_list(self._object_names, row_slice)
